@@ -315,6 +315,13 @@ def make_helpers(exe):
     def sizeof(tname):
         return exe.tu.sizeof(exe.tu.ctype(tname))
 
+    def strncmp_of(a, b, n):
+        """the term the executor produces for strncmp(a, b, n) (same uninterpreted function, same arguments)"""
+        from .libc import strncmp_fn, _str_term
+        ta, oa = _str_term(exe, a._st, a._p)
+        tb, ob = _str_term(exe, b._st, b._p)
+        return strncmp_fn(exe)(ta, oa, tb, ob, n)
+
     def same_obj(a, b):
         if isinstance(a, NullConst) or isinstance(b, NullConst):
             return z3.BoolVal(False)
@@ -323,7 +330,7 @@ def make_helpers(exe):
     return dict(And=h_and, Or=h_or, Not=h_not, implies=h_implies, ite=h_ite, iff=h_iff, forall=forall,
                 exists=exists, forall_real=forall_real, exists_real=exists_real, u64=u64, is_pow2=is_pow2, arr=arr, off=off, NULL=NULL, pmod=pmod, elem=elem, tagat=tagat, at=at, imin=imin, imax=imax,
                 iabs=iabs, lit=lit, sizeof=sizeof, num_of_int=num_of_int, byte_of_num=byte_of_num, bool_of_num=bool_of_num, num_zero=num_zero, trunc=trunc, isnan=isnan, fp=fp, real=real, dbl=dbl, same_obj=same_obj,
-                true=z3.BoolVal(True), false=z3.BoolVal(False), z3=z3, Select=z3.Select, Store=z3.Store,
+                strncmp_of=strncmp_of, true=z3.BoolVal(True), false=z3.BoolVal(False), z3=z3, Select=z3.Select, Store=z3.Store,
                 fpLT=z3.fpLT, fpLEQ=z3.fpLEQ, fpGT=z3.fpGT, fpGEQ=z3.fpGEQ, fpEQ=z3.fpEQ, fpAbs=z3.fpAbs,
                 fpIsInf=z3.fpIsInf, fpNeg=z3.fpNeg, ToReal=z3.ToReal, ToInt=z3.ToInt, Sum=z3.Sum)
 
@@ -594,6 +601,9 @@ def eval_clauses(exe, clauses, st, fn_name, loop_entry=None, raw=False, pre=None
     defs = dict(exe.contracts.get('__defs__', {}))
     defs.update(con.get('defs', {}))
     states = {'cur': st, 'old': pre or exe.__dict__.get('pre_states', {}).get(fn_name), 'entry': loop_entry}
+    gh = exe.__dict__.get('ghosts', {}).get(fn_name)
+    if gh:
+        extra = dict(gh, **(extra or {}))       # logical (ghost) parameters of the function under verification
     env = Env(exe, defs, states, fn_resolver(exe, fn_name), extra=extra)
     items = clauses.items() if isinstance(clauses, dict) else [('c%d' % i, c) for i, c in enumerate(clauses)]
     out = []
@@ -625,8 +635,24 @@ def eval_call_contract(exe, name, con, node, args, st):
     caller = exe.fn_stack[-1]
     site = '%s/call(%s)@%s' % (caller, name, exe._loc(node))
 
+    # logical (ghost) parameters of the callee: the caller's contract names the terms it instantiates them with,
+    # per call ordinal; they are evaluated in the caller's state before the call
+    gvals = {}
+    if con.get('ghost_params'):
+        key = '$gcall:%s:%s' % (caller, name)
+        k = st.ghost.get(key, 0)
+        st.ghost[key] = k + 1
+        ga = exe.contracts.get(caller, {}).get('ghost_args', {}).get(name)
+        if ga is None:
+            raise FrontEndError('call to %s from %s: the callee has logical parameters %s and the caller\'s contract gives no ghost_args' % (name, caller, list(con['ghost_params'])))
+        ga = ga[k] if isinstance(ga, (list, tuple)) else ga
+        for gname, term in eval_clauses(exe, {g: ga[g] for g in con['ghost_params']}, pre, caller, raw=True):
+            gvals[gname] = term
+
     def resolver_for(state):
         def resolve(nm, s):
+            if nm in gvals:
+                return gvals[nm]
             if nm in pnames:
                 i = pnames.index(nm)
                 return view(exe, s, args[i], ptypes[i])
